@@ -194,7 +194,7 @@ func layoutExhaustive(c *core.Ctx) ([]tcase, map[string]layoutInfo) {
 					continue
 				}
 				info[src] = layoutInfo{h.slot, sep.name}
-				out = append(out, tcase{"keyword layout (one slot, every separator): " + f.name, src})
+				out = append(out, mkCase("keyword layout (one slot, every separator): " + f.name, src))
 				c.Hist("keyword layout separator: " + sep.name)
 			}
 		}
@@ -250,7 +250,7 @@ func layoutRandom(c *core.Ctx, r *rng.R) tcase {
 	default:
 		fam += "3+ unusual separators"
 	}
-	return tcase{fam, src}
+	return mkCase(fam, src)
 }
 
 // the blank after a keyword, operator or opening delimiter of an existing template
@@ -294,7 +294,7 @@ func layoutRepo(c *core.Ctx, r *rng.R, whole []string) tcase {
 	if fam == "" {
 		fam = "keyword layout (repository template without a site)"
 	}
-	return tcase{fam, s}
+	return mkCase(fam, s)
 }
 
 // layoutTable summarises, per hole, which separators the real tool chain accepted (so their ranges were judged).
